@@ -653,6 +653,15 @@ func execAll(cases []Case, n int) []Rec {
 	return out
 }
 
+// RepoDir: the tree of freeconf/yang the harness was built against (/repo; a scratch
+// worktree when seeded changes are tried in parallel, see tools/seedrun.sh)
+var RepoDir = func() string {
+	if d := os.Getenv("VERIF_REPO"); d != "" {
+		return d
+	}
+	return "/repo"
+}()
+
 func ExecCase(c Case) (out []Rec) {
 	kind, _ := c["kind"].(string)
 	ex := Executors[kind]
